@@ -369,32 +369,6 @@ extern "C" int sim_heap_call(void) {
     return wp->plan && wp->plan->alloc_fail;
 }
 
-// C20: after a one-shot hash/HMAC returns, the image of its internal (freed) hash state -- chaining words as output
-// bytes 0..15 followed by the inverted bytes 16..31 -- must not be left in the dead part of the caller's stack.
-static void __attribute__((noinline)) stack_scan(World &w, TaskState &t, const uint8_t *out, const char *fn) {
-#ifndef SIM_ASAN
-    if (w.armed != C20 && w.armed != PR_NONE) return;
-    uint8_t img[32];
-    memcpy(img, out, 16);
-    for (int i = 16; i < 32; i++) img[i] = (uint8_t)~out[i];
-    Task &tk = w.tasks[t.id];
-    uint8_t *hi = (uint8_t *)img;                 // everything below this frame's own copy of the pattern: the dead stack
-    if ((uint8_t *)&tk < hi) hi = (uint8_t *)&tk;
-    hi -= 64;
-    uint8_t *lo = hi - 12288;
-    if (lo < tk.stack + 64) lo = tk.stack + 64;
-    bump(w, CT_P_STACK_SCAN);
-    for (uint8_t *p = lo; p + 32 <= hi; p += 4) {
-        if (p[0] == img[0] && memcmp(p, img, 32) == 0) {
-            report(w, C20, "state-left-on-stack", std::string(fn) + " returned but the image of its internal hash state is still on the stack: the wipe of the local state object did not survive compilation");
-            return;
-        }
-    }
-#else
-    (void)w; (void)t; (void)out; (void)fn;
-#endif
-}
-
 // ---------------------------------------------------------------- hash family (C11)
 static void do_hash(World &w, TaskState &t, const Op &op, int index) {
     HashObj &o = t.h[op.obj % NOBJ];
@@ -502,7 +476,6 @@ static void do_hmac(World &w, TaskState &t, const Op &op, int index) {
         if (!msg.empty()) { memcpy(in.p, msg.data(), msg.size()); if (inplace) memcpy(out.p, msg.data(), msg.size()); }
         const unsigned char *kp = (key.empty() && (op.flags & F_NULLPTR)) ? nullptr : (key.empty() ? g_dummy : key.data());
         { CallScope cs(t); tinyjambu_hmac(out.p, kp, key.size(), inplace ? out.p : in.p, msg.size()); }
-        stack_scan(w, t, out.p, "tinyjambu_hmac");
         if (on) {
             uint8_t exp[32];
             model_hmac(w, exp, key.data(), key.size(), msg.data(), msg.size());
@@ -1152,7 +1125,6 @@ static void do_oneshot(World &w, TaskState &t, const Op &op, int index) {
         Buf outb(32, 0);
         uint8_t *out = outb.p;
         { CallScope cs(t); tinyjambu_hash(out, in.p, msg.size()); }
-        stack_scan(w, t, out, "tinyjambu_hash");
         note(w, t, index, 0, out, 32);
     } else { // B_PBKDF2
         size_t outlen = (size_t)op.a;
